@@ -382,10 +382,14 @@ func genPickerNew(r *Rng, big bool) (string, int, int) {
 	var pads []bool
 	target := r.Range(1, 10)
 	if big {
-		target = r.Range(20, 64)
+		// maxWebseedPieces = n/20: ranges of 2..5 pieces need 40..100 pieces
+		target = r.Pick(40, 41, 47, 59, 60, 64, 80, 100)
 	}
 	for f := 0; f < nf; f++ {
 		ln := r.Range(1, target*pl/nf+1)
+		if big {
+			ln = target*pl/nf + r.Intn(2)
+		}
 		lens = append(lens, ln)
 		pads = append(pads, false)
 		if r.Chance(25) && ln%pl != 0 {
@@ -396,16 +400,31 @@ func genPickerNew(r *Rng, big bool) (string, int, int) {
 	secs := pickerLayout(lens, pads, pl)
 	n := len(secs)
 	var done []string
-	if r.Chance(50) {
+	donePct := r.Pick(0, 0, 25, 25)
+	if big {
+		// with nearly everything done no gap is left: web seeds steal from each other
+		donePct = r.Pick(0, 25, 80, 93, 97)
+	}
+	if big && r.Chance(30) {
+		// everything done but a window of a few adjacent pieces: one web seed takes the window, the
+		// next one finds no gap and steals the second half of it
+		w := r.Range(2, 6)
+		a := r.Intn(n - w + 1)
 		for i := 0; i < n; i++ {
-			if r.Chance(25) {
+			if i < a || i >= a+w {
+				done = append(done, fmt.Sprint(i))
+			}
+		}
+	} else {
+		for i := 0; i < n; i++ {
+			if r.Chance(donePct) {
 				done = append(done, fmt.Sprint(i))
 			}
 		}
 	}
 	ns := r.Pick(0, 0, 0, 1, 2, 3)
 	if big {
-		ns = r.Pick(0, 1, 2, 2, 3)
+		ns = r.Pick(1, 2, 2, 3, 3)
 	}
 	return fmt.Sprintf("new n=%d dup=%d seq=%s srcs=%d done=%s secs=%s", n, r.Pick(1, 1, 2, 2, 3, 0),
 		b01(r.Chance(50)), ns, joinOrDash(done), strings.Join(secs, "/")), n, ns
@@ -419,7 +438,7 @@ func genPicker(r *Rng, cnt int, tier string) []Case {
 	var cases []Case
 	for c := 0; c < cnt; c++ {
 		sim := &pickerSim{}
-		big := r.Chance(12)
+		big := r.Chance(10)
 		newOp, n, ns := genPickerNew(r, big)
 		ops := []string{newOp}
 		sim.apply(newOp)
@@ -473,6 +492,16 @@ func genPicker(r *Rng, cnt int, tier string) []Case {
 				do("unchoke p=0")
 			}
 		}
+		if big && r.Chance(50) {
+			// every source asks for a range right away (startPieceDownloaders); with few pieces left the
+			// later ones steal from the earlier ones
+			for k := 0; k < ns; k++ {
+				do(fmt.Sprintf("pickweb k=%d", k))
+				if r.Chance(30) {
+					do(fmt.Sprintf("wadv k=%d", r.Intn(ns)))
+				}
+			}
+		}
 		for len(ops) < nops && !sim.dead {
 			var op string
 			nopen := 0
@@ -498,6 +527,66 @@ func genPicker(r *Rng, cnt int, tier string) []Case {
 				return o
 			}
 			x := r.Intn(100)
+			if big && r.Chance(45) {
+				// web-seed heavy stretch: pick ranges, let the downloaders advance, deliver results
+				x = r.Pick(80, 82, 84, 86, 87, 88, 89, 90, 92, 94, 50, 55, 97)
+			}
+			if r.Chance(3) {
+				// churn: two downloads are canceled, one of the peers asks again (end game order)
+				var dl []int
+				for p, pe := range sim.peers {
+					if _, ok := sim.dls[pe]; ok {
+						dl = append(dl, p)
+					}
+				}
+				if len(dl) >= 2 {
+					a := r.Intn(len(dl))
+					b := (a + 1 + r.Intn(len(dl)-1)) % len(dl)
+					do(fmt.Sprintf("cancel p=%d", dl[a]))
+					do(fmt.Sprintf("cancel p=%d", dl[b]))
+					do(fmt.Sprintf("pick p=%d", dl[r.Pick(a, b)]))
+					continue
+				}
+			}
+			if big && r.Chance(8) {
+				// a peer gets a piece from inside a running web-seed range and asks: peer steals from web seed
+				if p, ok := openPeer(); ok {
+					for _, src := range sim.srcs {
+						if d := src.Downloader; d != nil && d.End-d.ReadCurrent() >= 2 {
+							i := int(d.ReadCurrent()) + 1 + r.Intn(int(d.End-d.ReadCurrent())-1)
+							do(fmt.Sprintf("have p=%d i=%d", p, i))
+							do(fmt.Sprintf("unchoke p=%d", p))
+							do(fmt.Sprintf("cancel p=%d", p))
+							do(fmt.Sprintf("pick p=%d", p))
+							break
+						}
+					}
+					continue
+				}
+			}
+			if r.Chance(4) {
+				// a download stalls (snubbed or choked) and another peer asks: re-request of stalled pieces
+				var dl, idle []int
+				for p, pe := range sim.peers {
+					if _, ok := sim.dls[pe]; ok {
+						dl = append(dl, p)
+					} else if !pe.Closed {
+						idle = append(idle, p)
+					}
+				}
+				if len(dl) > 0 && len(idle) > 0 {
+					a := dl[r.Intn(len(dl))]
+					if r.Chance(60) {
+						do(fmt.Sprintf("snub p=%d", a))
+					} else {
+						do(fmt.Sprintf("choke p=%d", a))
+					}
+					q := idle[r.Intn(len(idle))]
+					do(fmt.Sprintf("unchoke p=%d", q))
+					do(fmt.Sprintf("pick p=%d", q))
+					continue
+				}
+			}
 			switch {
 			case nopen < wantPeers && x < 35 && len(sim.peers) < 9:
 				// a new peer: handshake, bitfield, often unchoke and the first request at once
